@@ -224,6 +224,57 @@ def buf_big_cases(rng, lengths=BIG_LENGTHS):
     return lines
 
 
+def buf_seq_cases(rng, count):
+    """Sequences of single-call operations (write, read, flush) on ONE BufferOperation object: every call is a straight
+    pass-through whatever was called before it on the same object (seed C10-9: a flush that is skipped when nothing was
+    written since the last successful flush).  -> [(Q line for the runner, [the B line of each call alone for the model])]"""
+    out = []
+    shapes = [["f", "f"], ["f", "f", "f"], ["w", "f", "f"], ["f", "w", "f"], ["w", "w"], ["r", "r"], ["f", "r", "f"], ["w", "f", "w", "f"],
+              ["f", "f", "w", "f", "f"], ["r", "f", "f"], ["w", "r", "w"]]
+    for k in range(count):
+        ops = shapes[k % len(shapes)] if k < 3 * len(shapes) else [rng.choice("wrf") for _ in range(rng.randrange(2, 6))]
+        for ent in "stau":
+            addr = rng.choice([0, 9, 0x100, 0xFFFFFFFF])
+            items, blines, ents = [], [], []
+            for op in ops:
+                n = 0 if op == "f" else rng.choice([0, 1, 2, 3, 5])
+                buf = rnd_bytes(rng, n)
+                r = rng.random()
+                if r < 0.25:
+                    res = ("e", rng.randrange(1, 256))
+                elif op == "f":
+                    res = ("k", 0)
+                else:
+                    res = ("k", rng.randrange(0, n + 1))
+                data = rnd_store(rng, n) if op == "r" else []
+                e = entry(res, data, 0 if ent in "st" else rng.choice(PENDS))
+                ents.append(e)
+                items.append(f"{op}:{hx(buf)}")
+                blines.append(f"B {ent} {op} {addr} {hx(buf)} {script([e])}")
+            out.append((f"Q {ent} {addr} {';'.join(items)} {script(ents)}", blines))
+    return out
+
+
+def run_buf_seqs(ctx, seqs):
+    """-> (number of sequences, list of (Q line, implementation output, model outputs joined))"""
+    model_exe, impl_exe, err = build(ctx)
+    if err:
+        return 0, [("-", "build", err)]
+    qlines = [q for q, _ in seqs]
+    flat = [b for _, bl in seqs for b in bl]
+    impl = vlib.run_sharded(lambda p: [impl_exe, p], qlines, nshards=4, workdir=ctx.work, tag="implq")
+    model = vlib.run_sharded(lambda p: [model_exe, p], [model_line(l) for l in flat], nshards=vlib.NCPU, workdir=ctx.work, tag="modelq")
+    if len(impl) != len(qlines) or len(model) != len(flat):
+        return 0, [("-", "length", f"impl {len(impl)}/{len(qlines)} model {len(model)}/{len(flat)}")]
+    diffs, i = [], 0
+    for (q, bl), a in zip(seqs, impl):
+        want = " | ".join(model[i:i + len(bl)])
+        i += len(bl)
+        if a != want:
+            diffs.append((q, a, want))
+    return len(qlines), diffs
+
+
 def buf_line(rng, ent, op, n, seq, pends):
     addr = rng.choice([0, 9, 0x100, 0xFFFFFFFF])
     buf = rnd_bytes(rng, n)
